@@ -9,7 +9,7 @@ shutil.copy(f"{wt}/mutants/mutant_{n}.diff", f"{d}/patch.diff")
 shutil.copy(f"{wt}/mutants/demo_{n}.py", f"{d}/demo.py")
 notes = open(f"{wt}/mutants/notes.md").read() if os.path.exists(f"{wt}/mutants/notes.md") else ""
 meta = {"property": prop, "id": f"{prop}-{slug}", "source": "independent sub-agent given only the property text and a scratch worktree",
-        "apply": "git -C /repo apply patch.diff" if "bonds.c" not in open(f"{d}/patch.diff").read()[:400] else "patch /repo/src/biotite/structure/bonds.c patch.diff (generated C; the check's S0 stage rebuilds the extension)",
+        "apply": "git -C /repo apply patch.diff" if not any(x in open(f"{d}/patch.diff").read()[:400] for x in (".c\t", ".c ", ".cpp")) else "patch /repo/src/biotite/structure/bonds.c patch.diff (generated C; the check's S0 stage rebuilds the extension)",
         "demo": "PYTHONPATH=<tree>/src /venv/bin/python demo.py  (exit 0 clean, exit 1 with the change)"}
 meta.update(extra)
 json.dump(meta, open(f"{d}/meta.json", "w"), indent=1)
